@@ -163,6 +163,21 @@ inline void Sweep::unified_neighbours()
             c.same("mapping", &t->mapping(), static_cast<const Mapping*>(m)); c.same("parameters", &t->parameters(), &m->parameters()); c.same("result", &t->result(), &m->result());
             c.opt("initializer", t->initializer(), &m->result()); c.opt("definition", t->definition(), static_cast<const Template*>(d)); });      // a template's initializer is its mapping's result (as implemented and documented)
    }
+   // one spelling, types that differ only in top-level qualification (and an unrelated one): each literal / symbol / id-expression
+   // reports exactly the type it was asked with
+   {
+      auto ts = P.distinct(plain, 2);
+      const Type* variants[] = { ts[0], &lex.get_qualified(Qualifiers(1), *ts[0]), &lex.get_qualified(Qualifiers(2), *ts[0]), &lex.get_qualified(Qualifiers(3), *ts[0]), ts[1], &lex.get_qualified(Qualifiers(1), *ts[1]), ts[0] };
+      auto& sp = lex.get_string(u8"42"); auto& nm = lex.get_identifier(u8"cv_twin");
+      int k = 0;
+      for (auto t : variants) {
+         auto* lt = &lex.get_literal(*t, sp); add_node("get_literal(cv burst " + std::to_string(k) + ")", lt, Category_code::Literal, [lt, t, s = &sp](Ck& c) { c.type_is(*lt, *t, "given"); c.same("string", &lt->string(), s); }, false);
+         auto* ml = lex.make_literal(*t, u8"43"); add_node("make_literal(cv burst " + std::to_string(k) + ")", ml, Category_code::Literal, [ml, t](Ck& c) { c.type_is(*ml, *t, "given"); }, false);
+         auto* sy = &lex.get_symbol(nm, *t); add_node("get_symbol(cv burst " + std::to_string(k) + ")", sy, Category_code::Symbol, [sy, t, np = &nm](Ck& c) { c.type_is(*sy, *t, "given"); c.same("name", &sy->name(), static_cast<const Name*>(np)); }, false);
+         auto* th = &lex.get_this(*t); add_node("get_this(cv burst " + std::to_string(k) + ")", th, Category_code::Symbol, [th, t](Ck& c) { c.type_is(*th, *t, "given"); }, false);
+         ++k;
+      }
+   }
    // spellings that are prefixes of one another, through every spelling-keyed constructor
    {
       const char* sp[] = { "ab", "abc", "a", "ab", "abd", "", "abc" };
